@@ -31,7 +31,7 @@ for D in /verif/benign/$P-bn*; do
   ID=$(basename $D)
   cd /repo; [ -n "$(git status --porcelain)" ] && { echo "repo dirty"; exit 2; }
   git apply $D/patch.diff 2>/dev/null || { echo "BENIGN $ID: patch does not apply"; continue; }
-  cd /verif && ./check $P > /tmp/benign_$ID.out 2>&1; rc=$?
+  cd /verif && VERIF_EVIDENCE_DIR=/tmp/verif-exp-evidence ./check $P > /tmp/benign_$ID.out 2>&1; rc=$?
   cd /repo && git checkout -q -- . && git clean -fdq -- pkg apis cmd 2>/dev/null
   echo "BENIGN $ID rc=$rc"; grep -E "violated|undecided" /tmp/benign_$ID.out | head -6
 done
